@@ -229,6 +229,12 @@ def make_cases(pid, tier, seed):
                     if a[0]["mode"] == "block_alt":
                         continue   # probes on a replaced construct are removed with it
                     plans.append([a[0], dict(b[0], marker=9, ops=F.probe_ops(9))])
+        if pid in ("C17", "C22", "C16") and not isp:
+            # function entry AND exit on the same function, in both orders (one must not displace the other)
+            pe = {"mode": "func_entry", "marker": 7, "ops": F.probe_ops(7)}
+            px = {"mode": "func_exit", "marker": 9, "ops": F.probe_ops(9)}
+            plans.append([pe, px])
+            plans.append([px, pe])
         if pid == "C21" and len(body) <= 10:
             # "all other instructions and their instrumentation are unaffected": a replaced construct B together with
             # a probe on ANOTHER site A outside the replaced region (enclosing / sibling construct, plain instruction);
@@ -591,6 +597,23 @@ def run_engine_t(pid, tier, seed, out, ev):
     for c, what, detail in violations:
         role = role_of(pid, c, detail) + "+" + shape_of(what, detail)
         kf = [k for k in known if _re.search(k["role_re"], role)]
+        if kf and kf[0]["key"] == "semantic-after-branch-to-function-label-lost" and isinstance(detail, dict) and "spec" in detail and "impl" in detail:
+            # this known finding is "the probe is lost when the branch is TAKEN to the function label"; anything else
+            # going wrong in the same role (e.g. the probe also lost on fall-through) must still be reported: decide the
+            # case again under the reading that tolerates exactly the known finding
+            beyond = _beyond_function_label_finding(detail, c)
+            if beyond == "unknown":
+                out.inconclusive.append("tolerant re-check of %s: z3 gave up" % c["id"])
+                continue
+            if beyond is not None:
+                # what still differs may be ANOTHER known finding showing in the same case (e.g. the stale branch flag):
+                # classify the remaining difference and match it again, without the tolerated finding
+                ea, eb, sched = beyond
+                role2 = role_of(pid, c, detail) + "+" + shape_of("", dict(detail, impl_trace=ea, spec_trace=eb))
+                kf = [k for k in known if k["key"] != kf[0]["key"] and _re.search(k["role_re"], role2)]
+                if not kf:
+                    what = "even when the known finding semantic-after-branch-to-function-label-lost is tolerated: on oracle stream %s the instrumented body yields %s, prescribed (tolerating the finding) %s" % (sched, ea, eb)
+                    role = role2 + "-beyond-known-finding"
         if kf:
             kcount.setdefault(kf[0]["key"], [kf[0], 0, set(), c["id"]])
             kcount[kf[0]["key"]][1] += 1
@@ -613,6 +636,33 @@ def run_engine_t(pid, tier, seed, out, ev):
     tres["violating_cases"] = len(violations)
     tres["wall_s"] = round(time.time() - t0, 1)
     ev["t_results"] = tres
+
+
+def _beyond_function_label_finding(detail, c):
+    """None if the difference disappears when a semantic-after probe is not demanded on a branch taken to the function
+    label; else a description of what still differs (replayed by the interpreter); "unknown" if z3 gives up"""
+    from tv import machine as M
+    impl = M.Prog(detail["impl"], detail.get("types"), c.get("results", 0))
+    sp = M.Prog(detail["spec"], None, c.get("results", 0))
+    hooks = S.build_hooks(sp, detail["plan"], tolerate_function_label=True)
+    sel = 1
+    for o in detail["spec"]:
+        if o[0] == "br_table":
+            sel = max(sel, len(o[1]))
+    mf = detail.get("marker_filter")
+    r, sched, st = M.equivalent(impl, sp, hooks, mf, sel_range=sel, nparams=c.get("params", 0), compare_ret=c.get("results", 0) > 0)
+    if r == "unsat":
+        return None
+    if r != "sat":
+        return "unknown"
+    pvals = ()
+    if isinstance(sched, dict):
+        pvals, sched = tuple(sched["params"]), sched["conds"]
+    ea = I.run(detail["impl"], sched, None, detail.get("types"), nresults=c.get("results", 0), marker_filter=mf, params=pvals)
+    eb = I.run(detail["spec"], sched, detail["plan"], None, nresults=c.get("results", 0), marker_filter=mf, params=pvals, tolerate_function_label=True)
+    if ea == eb:
+        return "unknown"
+    return ea, eb, sched
 
 
 def run_replay(pid, d):
